@@ -119,7 +119,15 @@ PtIfacesItem(n) ==
     [base EXCEPT !.id = "PI" \o ToString(n),
                  !.attrs = <<A("sv::error", "ContractError")>>
                            \o [i \in 1..n |-> A("sv::messages", "crate::ifaces::m" \o ToString(i) \o " as Iface" \o ToString(i))]]
-PtFamily == {PtLintItem(i) : i \in 1..4} \cup {PtIfacesItem(n) : n \in {2, 3, 5}} \cup {PtItem(mac, c) : mac \in {"contract", "interface", "entry_points"}, c \in [1..5 -> 0..PtChoices]}
+(* a handler with another framework attribute written above its sv::msg, and attributes on its parameters *)
+PtAttrFirstItem(mac) ==
+    LET base == PtItem(mac, [x \in 1..5 |-> 0])
+        ix == IF mac = "interface" THEN 1 ELSE 3 IN
+    [base EXCEPT !.id = "PA" \o (IF mac = "interface" THEN "i" ELSE "c"),
+                 !.members[ix] = [@ EXCEPT !.attrs = <<A("sv::attr", "serde(rename = \"zz\")"), A("sv::msg", "exec")>>,
+                                           !.params = <<[P("x", "u32") EXCEPT !.attrs = <<A("serde", "default")>>],
+                                                        [P("y", "String") EXCEPT !.attrs = <<A("cfg", "all()"), A("allow", "unused")>>]>>]]
+PtFamily == {PtAttrFirstItem(mac) : mac \in {"contract", "interface"}} \cup {PtLintItem(i) : i \in 1..4} \cup {PtIfacesItem(n) : n \in {2, 3, 5}} \cup {PtItem(mac, c) : mac \in {"contract", "interface", "entry_points"}, c \in [1..5 -> 0..PtChoices]}
 
 (* ------------------------------------------------------------------ fw *)
 Marker(i) == A("doc", "= \"m" \o ToString(i) \o "\"")
@@ -169,6 +177,17 @@ FwTripleItem(mac, k1, k2, id) ==
           !.self_ty = IF mac = "interface" THEN "Iface" ELSE "Ctr",
           !.members = [i \in 1..Len(ms) |-> IF mac = "interface" THEN [ms[i] EXCEPT !.body = ""] ELSE ms[i]],
           !.forwards = <<fw(k1, 1), fw(k2, 3), fw(k1, 2)>>]
+(* attributes forwarded to the types of kinds the item has no handler of (the types exist all the same, without variants) *)
+FwNoHandlerItem(mac, id) ==
+    LET ms == IF mac = "interface" THEN << [H("foo", "exec", <<P("x", "u32")>>) EXCEPT !.body = ""] >>
+              ELSE <<New, H("instantiate", "instantiate", <<P("a", "u32")>>), H("foo", "exec", <<P("x", "u32")>>)>>
+        ty(k, i) == A("sv::msg_attr", k \o ", " \o Marker(i).p \o " " \o Marker(i).t)
+        fw(k, i) == [site |-> "type", kind |-> k, method |-> "", param |-> "", m |-> Marker(i)]
+    IN [BaseItem(id, "fw", mac) EXCEPT
+          !.attrs = <<ty("sudo", 1), ty("query", 2)>> \o (IF mac = "interface" THEN <<A("sv::custom", "msg = Empty, query = Empty")>> ELSE <<>>),
+          !.self_ty = IF mac = "interface" THEN "Iface" ELSE "Ctr",
+          !.members = ms,
+          !.forwards = <<fw("sudo", 1), fw("query", 2)>>]
 FwTripleKinds(mac) == IF mac = "interface" THEN {"exec", "query", "sudo"} ELSE {"instantiate", "exec", "query", "sudo", "migrate"}
 FwTripleSeq(mac) == SetToSeq({<<a, b>> \in FwTripleKinds(mac) \X FwTripleKinds(mac) : a # b})
 FwTriples == UNION {{FwTripleItem(mac, FwTripleSeq(mac)[i][1], FwTripleSeq(mac)[i][2], "FT" \o (IF mac = "contract" THEN "c" ELSE "i") \o ToString(i)) :
@@ -214,9 +233,15 @@ GenSeq == SetToSeq(ArgTypes \X ArgTypes \X ArgTypes \X RespTypes)
 TyTuple(t) == [ty |-> "(" \o t \o ", u64)", mentions |-> <<t>>]
 TyArr(t) == [ty |-> "[" \o t \o "; 2]", mentions |-> <<t>>]
 TyParen(t) == [ty |-> "(" \o t \o ")", mentions |-> <<t>>]
-NonPathTypes == UNION {{TyTuple(TP(i)), TyArr(TP(i)), TyParen(TP(i))} : i \in 1..GenParams}
-GenNonPathSeq == SetToSeq(NonPathTypes \X {1, 2, 3})
-GenNonPathItem(t, pos, id) == GenItem(IF pos = 1 THEN t ELSE TyNone, IF pos = 2 THEN t ELSE TyNone, IF pos = 3 THEN t ELSE TyNone, TyNone, id)
+(* a concrete type reached through a module path whose last segment is spelled like a parameter: no use of the parameter *)
+TyQualified(t) == [ty |-> "crate::legacy::" \o t, mentions |-> <<>>]
+(* a parameter nested in a non-path type *inside* a path type *)
+TyVecTuple(t) == [ty |-> "Vec<(u64, " \o t \o ")>", mentions |-> <<t>>]
+TyOptArr(t) == [ty |-> "Option<[" \o t \o "; 2]>", mentions |-> <<t>>]
+NonPathTypes == UNION {{TyTuple(TP(i)), TyArr(TP(i)), TyParen(TP(i)), TyQualified(TP(i)), TyVecTuple(TP(i)), TyOptArr(TP(i))} : i \in 1..GenParams}
+GenNonPathSeq == SetToSeq(NonPathTypes \X {1, 2, 3, 4})      \* position 4: the query's response type
+GenNonPathItem(t, pos, id) == GenItem(IF pos = 1 THEN t ELSE TyNone, IF pos = 2 THEN t ELSE TyNone, IF pos = 3 THEN t ELSE TyNone,
+                                      IF pos = 4 THEN t ELSE TyNone, id)
 GenRespSeq == SetToSeq({TyNone, TyDirect(TP(1))} \X {TyNone, TyDirect(TP(1))})
 GenFamily == {GenItem(GenSeq[i][1], GenSeq[i][2], GenSeq[i][3], GenSeq[i][4], "G" \o ToString(i)) : i \in 1..Len(GenSeq)}
         \cup {GenRespItem(GenRespSeq[i][1], GenRespSeq[i][2], "GR" \o ToString(i)) : i \in 1..Len(GenRespSeq)}
@@ -345,7 +370,8 @@ SitesOf(rule) ==
 WithSites(it) == it @@ [sites |-> SitesOf(it.rule)]
 
 (* ---------------------------------------------------------------- model *)
-Items == TLCEval(SetToSeq({WithSites(it) : it \in EpFamily \cup PtFamily \cup FwFamily \cup FwTriples \cup GenFamily \cup RuleFamily}))
+FwNoHandlers == {FwNoHandlerItem("contract", "FNc"), FwNoHandlerItem("interface", "FNi")}
+Items == TLCEval(SetToSeq({WithSites(it) : it \in EpFamily \cup PtFamily \cup FwFamily \cup FwTriples \cup FwNoHandlers \cup GenFamily \cup RuleFamily}))
 
 VARIABLES item,      \* index into Items
           stage,     \* "source" | "expanded"
